@@ -31,14 +31,30 @@ impl Prop for C19 {
         "C19"
     }
     fn strategy(&self, tier: Tier) -> BoxedStrategy<C19Case> {
-        dripcase_strategy(
-            derived_strategy(),
-            tier.pick(8_000, 20_000) as u32,
-            tier.pick(60, 150) as usize,
-            prop_oneof![2 => Just(0u16), 2 => 1u16..40].boxed(),
+        (
+            dripcase_strategy(
+                derived_strategy(),
+                tier.pick(8_000, 20_000) as u32,
+                tier.pick(60, 150) as usize,
+                prop_oneof![2 => Just(0u16), 2 => 1u16..40].boxed(),
+            ),
+            0u8..6,
         )
-        .prop_map(C19Case::Drip)
-        .boxed()
+            .prop_map(|(mut c, big)| {
+                if big == 0 {
+                    // one case in six: 16-page streams on both sides and at least 5000 samples per
+                    // input, delivered generously: single calls of more than 4096 steps
+                    c.in_pages = 16;
+                    c.out_pages = 16;
+                    for g in c.gens.iter_mut() {
+                        g.len = g.len.max(5000) + (g.seed % 3000);
+                    }
+                    c.drain_feed = crate::ring::Sz::All;
+                    c.drain_free = crate::ring::Sz::All;
+                }
+                C19Case::Drip(c)
+            })
+            .boxed()
     }
     fn cases(&self, tier: Tier) -> u64 {
         tier.pick(12_000, 300_000)
@@ -72,7 +88,7 @@ impl Prop for C19 {
         }
     }
     fn rule(&self) -> String {
-        "generated: 10 harness-defined blocks using #[derive(rustradio_macros::Block)] (sync 1->1, 1->2, 1->3, 2->1, 2->2, 2->3 with a distinct function per output; sync_tag 1->1 and 2->1; default+into fields (an `into` field declared before a plain field of an interchangeable type, so the constructor's argument order shows in the output); a non-sync block with generated new() over a copy and a non-copy output) under C08-style drip schedules with unequal input lengths and unequal free space per output. Oracle per work() call: steps = min(shortest input, smallest output space); every input loses exactly `steps`, every output gains exactly `steps`, the per-sample function runs exactly `steps` times, verdict Again; with steps = 0 nothing moves and the verdict names an empty input or a full output. Final outputs equal the per-port functions (so read ends come back in declaration order), tags follow the first input plus the block's own (the 2->1 sync_tag block also forwards the tags of its second input under its own key). eof() is enumerated over all input states. Non-trivial: some call saw unequal inputs or unequal output space; distinct = hash of the case.".into()
+        "generated: 10 harness-defined blocks using #[derive(rustradio_macros::Block)] (sync 1->1, 1->2, 1->3, 2->1, 2->2, 2->3 with a distinct function per output; sync_tag 1->1 and 2->1; default+into fields (an `into` field declared before a plain field of an interchangeable type, so the constructor's argument order shows in the output); a non-sync block with generated new() over a copy and a non-copy output) under C08-style drip schedules with unequal input lengths and unequal free space per output (one case in six on 16-page streams with 5000+ samples per input, so that single calls take more than 4096 steps). Oracle per work() call: steps = min(shortest input, smallest output space); every input loses exactly `steps`, every output gains exactly `steps`, the per-sample function runs exactly `steps` times, verdict Again; with steps = 0 nothing moves and the verdict names an empty input or a full output. Final outputs equal the per-port functions (so read ends come back in declaration order), tags follow the first input plus the block's own (the 2->1 sync_tag block also forwards the tags of its second input under its own key). eof() is enumerated over all input states. Non-trivial: some call saw unequal inputs or unequal output space; distinct = hash of the case.".into()
     }
     fn assumptions(&self) -> Vec<String> {
         vec!["calls made after the harness dropped a stream end are not judged (buffered counts are unobservable then)".into()]
